@@ -131,6 +131,21 @@ def handle (j : Json) : Except String Json := do
                        ("cart_old", ofV3 so.atom.cart), ("cart_shx_old", ofV3 (mulVec so.om so.atom.frac)),
                        ("spec_frac", ofV3 (specFrac p (atomEdits es))), ("spec_uvals", ofU (specUvals u (atomEdits es))),
                        ("spec_V", ofFloat (fsqrt (gramDet (metric (specCell c es)))))]
+  | "body" =>
+    -- the atoms of a file body with other instructions between them:
+    -- {"cell", "lines": [{"k": "move", "params": [...]} | {"k": "other"} | {"k": "atom", "xyz", "u"}]}
+    let c ← field j "cell" >>= floats >>= cellOf
+    let ls ← (← arrField j "lines").mapM (fun e => do
+      match ← strField e "k" with
+      | "move" => return BodyLine.move (← field e "params" >>= floats)
+      | "other" => return BodyLine.other
+      | "atom" => return BodyLine.atom (← field e "xyz" >>= floats >>= v3Of) (← field e "u" >>= floats >>= u6Of)
+      | o => err s!"C12: unknown body line {o}")
+    let st := parseBody (orthoM fsqrt c) ls
+    let ch := cholUpper fsqrt (metric c)
+    return Json.mkObj [("atoms", Json.arr (st.atoms.map (fun a => Json.mkObj [("frac", ofV3 a.frac), ("cart", ofV3 a.cart)])).toArray),
+                       ("spec", Json.arr ((specBody ls).map (fun (p, _) =>
+                          Json.mkObj [("frac", ofV3 p), ("cart", ofV3 (mulVec ch p))])).toArray)]
   | _ => err s!"C12: unknown op {op}"
 
 end Shelx.Drv.C12
